@@ -166,20 +166,20 @@ impl RefRange {
         }
         ok
     }
-    /// The words prescribed by the documented sealing rule (notes/range-coding.md, "Finishing
-    /// up"): the leading renorms+1 digits of low + 2^(s-w) - 1, followed by one zero digit
-    /// iff the same-length prefix of low + range is equal to them.
+    /// The words prescribed by the sealing rule of notes/range-coding.md ("Finishing up"): the
+    /// leading renorms+1 digits of low + 2^(s-w) - 1, followed by as many zero digits as are
+    /// needed for a continuation with only one bits to stay below low + range.  For s = 2w
+    /// this is exactly "one zero word iff the most significant words of upper and point agree".
     pub fn sealed(&self) -> Vec<u64> {
         if !self.encoded_any {
             return Vec::new();
         }
         let keep = self.renorms + 1;
         let mut point = self.low.clone();
-        let c1 = Self::add_to(&mut point, (1u128 << (self.s - self.w)) - 1, self.w);
-        let mut upper = self.low.clone();
-        let c2 = Self::add_to(&mut upper, self.range, self.w);
+        let _ = Self::add_to(&mut point, (1u128 << (self.s - self.w)) - 1, self.w);
         let mut out: Vec<u64> = point[..keep].to_vec();
-        if c1 == c2 && upper[..keep] == point[..keep] {
+        let max_len = self.low.len();
+        while out.len() < max_len && !self.continuation_inside(&out).1 {
             out.push(0);
         }
         out
